@@ -103,7 +103,7 @@ func (p *Path) arbitrary(t types.Type, name string, depth int, site ssa.Instruct
 		}
 		return StructV{F: fs}
 	case *types.Pointer:
-		isNil := p.choose(name+".nil", 2)
+		isNil := p.namedChoose(name+".nil", 2)
 		p.inputs = append(p.inputs, &Input{Name: name + ".nil", Kind: "choose", Conc: isNil})
 		if isNil == 1 {
 			return PtrV{Type: t}
@@ -112,7 +112,7 @@ func (p *Path) arbitrary(t types.Type, name string, depth int, site ssa.Instruct
 		return PtrV{Obj: o, Type: t}
 	case *types.Slice:
 		// nil, or length 0..arbMaxColl
-		c := p.choose(name+".len", p.collChoices(depth))
+		c := p.namedChoose(name+".len", p.collChoices(depth))
 		p.inputs = append(p.inputs, &Input{Name: name + ".len", Kind: "choose", Conc: c})
 		if c == 0 {
 			return p.zero(t)
@@ -130,7 +130,7 @@ func (p *Path) arbitrary(t types.Type, name string, depth int, site ssa.Instruct
 		o := p.newObj(nil, ArrayV{E: es})
 		return SliceV{Arr: o, Len: n, Cap: n}
 	case *types.Map:
-		c := p.choose(name+".len", p.collChoices(depth))
+		c := p.namedChoose(name+".len", p.collChoices(depth))
 		p.inputs = append(p.inputs, &Input{Name: name + ".len", Kind: "choose", Conc: c})
 		if c == 0 {
 			return MapV{}
